@@ -11,6 +11,7 @@ from __future__ import annotations
 import ast
 import contextlib
 import hashlib
+import importlib
 import io
 import json
 import logging
@@ -60,13 +61,14 @@ RULE = ("seeded repositories (5-8 commits; package present / absent / top-level 
         "branches, HEAD, @, HEAD~1, full and abbreviated sha, unknown, ambiguous, existing griffe-<ref> branch) without fault; every "
         "single-fault placement (git calls x fail/raise x before/after, torn add / remove with and without exception, mkdtemp, removal of "
         "the temp dir x at once / torn / on return x OSError / KeyboardInterrupt) with clean and dirty body; pairs of faults; every loader "
-        "stage / hook index x {Exception, KeyboardInterrupt, write a file}; forced inspection (real __pycache__); mkdtemp name collision "
+        "stage / hook index x {Exception, KeyboardInterrupt, write a file}; forced inspection (real __pycache__); package absent / broken at the "
+        "reference while the calling process can import it from the working tree (sys.path, byte-code on; in process and CLI); mkdtemp name collision "
         "with a stale (locked) registration; random multi-fault schedules; check() with faults on both loads, latest-tag default and "
         "working-tree side; `python -m griffe check` end to end, plain and with faults from a git shim on PATH (exit codes, SIGINT, torn "
         "calls) and a CLI extension; returned objects (static and inspected, facade + private sibling) against `git show` under a "
         "file-system audit; scripted + random git step sequences for the oracle (free, foreign-directory, live, missing-registered and "
         "locked paths). non-trivial = a fault, an event, a non-package content or a non-plain reference; distinct by canonical case value")
-TRUSTED = ["abstraction: harness reads `git for-each-ref / worktree list --porcelain / status / stash list / ls-files -s` and the TMPDIR "
+TRUSTED = ["abstraction: harness reads `git for-each-ref / worktree list --porcelain / status --ignored / stash list / ls-files -s`, a full listing of the main worktree and the TMPDIR "
            "listing into the model's repo record (commits -> indices, directories -> path ids)",
            "fault injector: a proxy for every binding of `subprocess` / its entry points inside _griffe.git, os.mkdir and shutil.rmtree "
            "for directories directly under TMPDIR, wrappers on GriffeLoader._post_load / resolve_aliases and a catch-all Extension; end to "
@@ -498,6 +500,19 @@ class Repo:
 _status_intern = {}
 
 
+def main_worktree_listing(root):
+    out = []
+    for d, dirs, files in os.walk(root):
+        if d == str(root) and ".git" in dirs:
+            dirs.remove(".git")
+        dirs.sort()
+        rel = os.path.relpath(d, root)
+        for name in sorted(dirs + files):
+            f = os.path.join(d, name)
+            out.append(f"{os.path.join(rel, name)} {'-> ' + os.readlink(f) if os.path.islink(f) else 'dir' if os.path.isdir(f) else os.path.getsize(f)}")
+    return out
+
+
 def observe(repo: Repo):
     """Everything the property talks about, as raw text (direct evaluation) — no interpretation."""
     p = repo.path
@@ -505,7 +520,9 @@ def observe(repo: Repo):
         "head": git(p, "rev-parse", "HEAD", check=False).stdout.strip(),
         "symbolic_head": git(p, "symbolic-ref", "-q", "HEAD", check=False).stdout.strip(),
         "refs": git(p, "for-each-ref", "--format=%(refname) %(objectname)", "refs/heads", "refs/tags", "refs/stash").stdout,
-        "status": git(p, "status", "--porcelain", "--untracked-files=all").stdout,
+        "status": git(p, "status", "--porcelain", "--untracked-files=all", "--ignored").stdout,
+        # every file and directory of the main worktree (size and link target included), whatever git thinks of it
+        "files": "\n".join(main_worktree_listing(p)),
         "stash": git(p, "stash", "list").stdout,
         "index": hashlib.sha1(git(p, "ls-files", "-s").stdout.encode()).hexdigest(),
         "worktrees": git(p, "worktree", "list", "--porcelain").stdout,
@@ -514,7 +531,7 @@ def observe(repo: Repo):
     return obs
 
 
-MAIN_KEYS = ("head", "symbolic_head", "status", "stash", "index")
+MAIN_KEYS = ("head", "symbolic_head", "status", "files", "stash", "index")
 
 
 def parse_worktrees(text):
@@ -549,7 +566,7 @@ def abstract(repo: Repo, obs):
             branches.append([ref[11:], repo.sha_idx.get(sha, 999)])
     sym = obs["symbolic_head"]
     hb = [sym.replace("refs/heads/", "", 1)] if sym else []
-    key = obs["status"] + "\0" + obs["stash"] + "\0" + obs["index"]
+    key = obs["status"] + "\0" + obs["stash"] + "\0" + obs["index"] + "\0" + obs["files"]
     st = _status_intern.setdefault(key, len(_status_intern))
     wts = parse_worktrees(obs["worktrees"])[1:]
     regs, dirs = [], []
@@ -1167,8 +1184,13 @@ def run_load_case(env, repo: Repo, case):
     inspect_mode = bool(case.get("inspect"))
     with injected(ctrl):
         try:
-            if inspect_mode:
+            if inspect_mode or case.get("syspath"):
                 sys.dont_write_bytecode = False     # what a user without PYTHONDONTWRITEBYTECODE gets: __pycache__ inside the checkout
+            if case.get("syspath"):
+                # the calling process can import the package from the user's working tree: a script living in the repository,
+                # `python -m griffe` started there ('' / cwd entry), an editable or PYTHONPATH=. set-up
+                sys.path[:0] = ["", str(repo.path if repo.layout == "." else repo.path / repo.layout)]
+                importlib.invalidate_caches()
             with watchdog(60):
                 obj = griffe.load_git(package, ref=ref, repo=repo_arg, search_paths=[repo.layout],
                                       extensions=griffe.load_extensions(ext), resolve_aliases=True, force_inspection=inspect_mode)
@@ -1177,7 +1199,9 @@ def run_load_case(env, repo: Repo, case):
             outcome = ["raised", exc_name(e)]
         finally:
             tempfile._name_sequence = saved_names
-            if inspect_mode:
+            if case.get("syspath"):
+                del sys.path[:2]
+            if inspect_mode or case.get("syspath"):
                 sys.dont_write_bytecode = True
                 for name in [m for m in sys.modules if m == PKG or m.startswith(PKG + ".")]:
                     del sys.modules[name]
@@ -1331,6 +1355,31 @@ def run_load_batch(ctx, env, repo, cases, label):
             mo = None
         judge_load(ctx, repo, rec, mo, label)
     return recs
+
+
+def syspath_stream(ctx, env, repo):
+    if repo.work["kind"] != "package":
+        ctx.observe("syspath.stream", "skipped: no package in the working tree")
+        return
+    cases, cli = [], None
+    for k, c in enumerate(repo.commits):
+        if c["kind"] != "package":
+            cases.append(load_case(c["sha"], syspath=True))
+            cases.append(load_case(c["sha"][:8], syspath=True, faults=faults(remove=["fail-after"]), repo_arg="."))
+            if c["kind"] == "absent":
+                cli = cli or c["sha"]
+    k = repo.head_idx
+    cases.append(load_case(repo.commits[k]["sha"], syspath=True))                 # present: nothing but the checkout may be read
+    cases.append(load_case(repo.commits[k]["sha"], syspath=True, inspect=True, expect=k))
+    for rec in run_load_batch(ctx, env, repo, cases, "importable-working-tree"):
+        kind = repo.commits[repo.loadable(rec["case"]["ref"])]["kind"]
+        ctx.observe("syspath.stream", f"{kind}:{rec['outcome'][1] if rec['outcome'][0] == 'raised' else 'returned'}")
+        if rec["outcome"][0] == "returned" and kind != "package":
+            ctx.property_failure(dict(rec["case"], repo=repo.spec(), kind="load_git"),
+                                 {"what": "load_git returned a package although it is absent / broken at that reference", "outcome": rec["outcome"]})
+    if cli:
+        run_cli(ctx, env, repo, cli, None, importable=True)
+        repo.restore()      # whatever that run may have written into the working tree
 
 
 def load_case(ref, package=PKG, faults=None, events=None, n_points=0, **kw):
@@ -1574,16 +1623,23 @@ def run_check_batch(ctx, env, repo, cases):
 
 # --------------------------------------------------------------------------------------------- end-to-end CLI
 
-def run_cli(ctx, env, repo, against, base):
+def run_cli(ctx, env, repo, against, base, importable=False):
     before = observe(repo)
     cmd = [sys.executable, "-m", "griffe", "check", PKG, "-s", repo.layout]
     if against:
         cmd += ["-a", against]
     if base:
         cmd += ["-b", base]
-    p = _real_run(cmd, cwd=repo.path, capture_output=True, text=True, timeout=120, env=dict(os.environ, NO_COLOR="1"))
+    e = dict(os.environ, NO_COLOR="1")
+    if importable:
+        # the package of the working tree is importable in the CLI process and byte-code writing is on (the defaults of a
+        # user who runs `python -m griffe check` in a checkout installed in development mode)
+        e.pop("PYTHONDONTWRITEBYTECODE", None)
+        e["PYTHONPATH"] = e.get("PYTHONPATH", "") + os.pathsep + str(repo.path if repo.layout == "." else repo.path / repo.layout)
+    p = _real_run(cmd, cwd=repo.path, capture_output=True, text=True, timeout=120, env=e)
     after = observe(repo)
-    cj = {"kind": "cli", "repo": repo.spec(), "against": against, "base": base}
+    cj = {"kind": "cli", "repo": repo.spec(), "against": against, "base": base, "importable": importable}
+    ctx.observe("cli.importable", importable)
     ctx.case(cj, True)
     ko = repo.loadable(against or repo.latest_tag)
     kn = repo.head_idx if not base else repo.loadable(base)
@@ -2434,6 +2490,9 @@ def explore(ctx):
             # a name collision with the stale registration of an interrupted run: `worktree add` on an occupied path
             r, k = ctx.rng.choice(good)
             run_load_batch(ctx, env, repo, [load_case(r, collide="stale"), load_case(r, collide="locked", faults=faults(rmtree=["raise-after", "OSError"]))], "collision")
+            # the package is absent (or broken) at the reference while the calling process can import it from the user's
+            # working tree: inspection is allowed by default, so the loader falls back to a dynamic import
+            syspath_stream(ctx, env, repo)
             # two faults at once
             r, k = ctx.rng.choice(good)
             run_load_batch(ctx, env, repo, pair_fault_cases(r, npts[k], ctx.rng), "pair-fault")
